@@ -30,6 +30,9 @@ CLAIMED = {
  "C02": ("all-paths effect counting + acquire/consume typestate (incl. loop-back paths) + closure/provenance resolution + must-lockset over go/ssa",
          "Static: every outcome of the capacity-owning listener gives back gauge -1 and one token.Release on every path; wrappers forward the same outcome once; every listener/token obtained from a delegate or strategy is consumed exactly once on every path where it may hold capacity (returned, wrapped, delivered or completed) including refused hand-off, timeout, cancel and loop-back paths; results obey 'listener iff ok'; the hand-off channel protocol cannot strand a token; partition grant/release closures charge and return the same bin and the total once each under the mutex; the gauge is incremented only on the grant path; StaticStrategyToken.Release runs its function once. Caller misuse is outside the statement.",
          "5/C02"),
+ "C17": ("interprocedural must-lockset analysis with inferred guarded-by relations, atomic-access recognition and owner-encapsulation check over go/ssa",
+         "Static lockset discipline sufficient for data-race freedom: every field (or referent of a pointer/map/slice/list field) of the shared public objects that is written after construction is accessed only through sync/atomic, or under one common mutex of its object on every path and from every call site (exclusive for writes), or through a verified encapsulating owner holding its mutex; package variables are written only during initialisation. Holds for all goroutine schedules because must-locksets are schedule-independent. Assumes objects are not copied, user callbacks are safe, third-party objects are used under our lock or documented safe.",
+         "5/C17"),
 }
 
 PENDING_REASON = "check not built yet in this session; see DESIGN.md section 5 for the planned static obligations"
